@@ -428,6 +428,9 @@ func (g *SchemaGen) arraySchema(depth int) map[string]any {
 		}
 	case 1:
 		n := g.R.Range(1, 3)
+		if g.R.P(0.08) {
+			n = 0 // an empty tuple: every element lies beyond it
+		}
 		t := make([]any, n)
 		for i := range t {
 			t[i] = g.Schema(depth + 1)
